@@ -743,6 +743,19 @@ func (r *resolver) cloneDefs(parent HasDataDefinitions, defs []Definition, when 
 	return copy
 }
 
+// mainModule is the module a submodule belongs to, also when the submodule was
+// included by another submodule. Everything submodules define is merged into it.
+func mainModule(m *Module) *Module {
+	for m.belongsTo != nil {
+		parent, isModule := m.Parent().(*Module)
+		if !isModule || parent == m {
+			break
+		}
+		m = parent
+	}
+	return m
+}
+
 func (r *resolver) findGrouping(y *Uses) (*Grouping, error) {
 	prefix, ident := splitIdent(y.Ident())
 
@@ -781,7 +794,7 @@ func (r *resolver) findGrouping(y *Uses) (*Grouping, error) {
 				// issue #50 - submodules can reference types in parent and in any
 				// other submodule w/o prefix
 				if m, isModule := p.(*Module); isModule && m.belongsTo != nil {
-					p = m.Parent().(Definition)
+					p = mainModule(m)
 				}
 			}
 		}
